@@ -5,6 +5,7 @@ import JanetModel.GC.Model
 import JanetModel.GC.Roots
 import JanetModel.GC.Weak
 import JanetModel.GC.SymSweep
+import JanetModel.GC.RingMark
 open JanetModel.GC
 
 structure DS where
@@ -29,6 +30,9 @@ structure DS where
   symChecked : Nat := 0
   symDeinit : Nat := 0
   symDiff : Nat := 0
+  rings : Nat := 0          -- ring buffers of the mark phase seen in the dump
+  ringsWrapped : Nat := 0   -- … whose content wraps round (head > tail)
+  ringDiff : Nat := 0       -- representation invariant violated, or the regenerated walk visits other slots than the occupied ones
 
 def parseRef (s : String) : Val := match s.toNat? with | some n => .ref n | none => .imm
 
@@ -120,6 +124,20 @@ def symCompare (st : DS) (cap count deleted : Nat) (toks : List String) : DS :=
     { st with symChecked := st.symChecked + 1, symDeinit := st.symDeinit + (count0 - r.count), symDiff := st.symDiff + (if same then 0 else 1),
               weakFirst := if !same && st.weakFirst == "" then s!"symcache:cap{cap0}:model-count{r.count}/{r.deleted}:impl-count{count}/{deleted}:first-bucket{firstBad}" else st.weakFirst }
 
+open JanetModel.GC.RingMark in
+/-- one real ring buffer (run queue / channel items / channel pending queue) at a collection: the hypothesis `WF` of
+`mark_ring_walk_visits_all` must hold of it, and the walk regenerated from the source must visit its occupied slots -/
+def ringCheck (st : DS) (which : String) (head tail cap cnt : Nat) : DS :=
+  let s : QS := ⟨head, tail, cap⟩
+  let w := match which with
+    | "spawn" => JanetModel.Gen.GC.ringWalkEvMark
+    | "items" => JanetModel.Gen.GC.ringWalkChanItems
+    | _ => JanetModel.Gen.GC.ringWalkChanFq
+  let visited := runWalk (cap + 1) s w
+  let ok := decide (WF s) && visited == ringSlots s && visited.length == cnt
+  { st with rings := st.rings + 1, ringsWrapped := st.ringsWrapped + (if head > tail then 1 else 0), ringDiff := st.ringDiff + (if ok then 0 else 1),
+            weakFirst := if !ok && st.weakFirst == "" then s!"ring:{which}:{head}:{tail}:{cap}:count{cnt}:visited{visited.length}" else st.weakFirst }
+
 def check (st : DS) : String := Id.run do
   let objs := st.objs
   let n := objs.size
@@ -162,8 +180,8 @@ def check (st : DS) : String := Id.run do
       | _, _ => pure ()
   let stuck := m.stuck || m1.stuck || m3.stuck || !m.spill.isEmpty
   if first == "" then first := st.weakFirst
-  let ok := missing == 0 && extra == 0 && dep == 0 && sweepDiff == 0 && !stuck && st.bad == 0 && st.envBad == 0 && st.weakDiff == 0 && st.symDiff == 0
-  return s!"result ok={if ok then 1 else 0} collection={st.coll} nodes={n} modelmarked={nm} missing={missing} extra={extra} depthdep={dep} sweepdiff={sweepDiff} modelfreed={freed} weakcleared={cleared} stuck={if stuck then 1 else 0} parsebad={st.bad} envmodes={st.envSeen} envbad={st.envBad} opaque={if st.opq then 1 else 0} weaktables={st.weakTables} weakslots={st.weakSlots} weakdropped={st.weakDropped} weakdiff={st.weakDiff} symcaches={st.symChecked} symdeinit={st.symDeinit} symdiff={st.symDiff} first={if first == "" then "-" else first}"
+  let ok := missing == 0 && extra == 0 && dep == 0 && sweepDiff == 0 && !stuck && st.bad == 0 && st.envBad == 0 && st.weakDiff == 0 && st.symDiff == 0 && st.ringDiff == 0
+  return s!"result ok={if ok then 1 else 0} collection={st.coll} nodes={n} modelmarked={nm} missing={missing} extra={extra} depthdep={dep} sweepdiff={sweepDiff} modelfreed={freed} weakcleared={cleared} stuck={if stuck then 1 else 0} parsebad={st.bad} envmodes={st.envSeen} envbad={st.envBad} opaque={if st.opq then 1 else 0} weaktables={st.weakTables} weakslots={st.weakSlots} weakdropped={st.weakDropped} weakdiff={st.weakDiff} symcaches={st.symChecked} symdeinit={st.symDeinit} symdiff={st.symDiff} rings={st.rings} ringswrapped={st.ringsWrapped} ringdiff={st.ringDiff} first={if first == "" then "-" else first}"
 
 
 /-! ### op-history mode (harness/C01/roots.c): lines `m <op>` are replayed with the model's `stepOp`, `show` prints the
@@ -297,6 +315,8 @@ partial def loop (inp out : IO.FS.Stream) (st : DS) (rs : RS := {}) : IO Unit :=
     loop inp out { st with weakBefore := (id.toNat?.getD 0, kind.toNat?.getD 0, count.toNat?.getD 0, deleted.toNat?.getD 0, slots) :: st.weakBefore } rs
   | "wa" :: id :: _ :: count :: deleted :: slots =>
     loop inp out (weakCompare st (id.toNat?.getD 0) (count.toNat?.getD 0) (deleted.toNat?.getD 0) slots) rs
+  | ["rq", which, hd, tl, cap, cnt] =>
+    loop inp out (ringCheck st which (hd.toNat?.getD 0) (tl.toNat?.getD 0) (cap.toNat?.getD 0) (cnt.toNat?.getD 0)) rs
   | "sc" :: cap :: count :: deleted :: toks =>
     loop inp out { st with symBefore := some (cap.toNat?.getD 0, count.toNat?.getD 0, deleted.toNat?.getD 0, toks) } rs
   | "sca" :: cap :: count :: deleted :: toks =>
